@@ -10,7 +10,7 @@ from functools import cache
 from typing import Any, Self, overload
 
 from ..contexts.infos import ParseInfo
-from ..util import rowselect, typename
+from ..util import rowselect, safe_name, typename
 from ..util.asjson import AsJSONMixin, asjson, asjsons
 from ..util.fromjson import JSONBase
 from ..util.indent import fold
@@ -84,10 +84,17 @@ class BaseNode(JSONBase, AsJSONMixin):
         #   attributes declared by the Node subclass. Synthetic classes
         #   override this to create the attributes.
         keys = self._in_field_order(ast)
-        for name in keys:
-            if not hasattr(self, name) or inspect.ismethod(getattr(self, name)):
+        for key in keys:
+            # the AST renames keys that collide with dict attributes (items -> items_),
+            # generated classes rename Python keywords (class -> class_)
+            for name in (key, safe_name(key), key.rstrip('_')):
+                if name and hasattr(self, name):
+                    break
+            else:
                 continue
-            setattr(self, name, ast[name])
+            if inspect.ismethod(getattr(self, name)):
+                continue
+            setattr(self, name, ast[key])
 
     def __set_attributes(self, **attrs) -> None:
         if not isinstance(attrs, dict):
